@@ -40,7 +40,7 @@ def specMachine : Machine LUV.State := ⟨LUV.step, LUV.retractall 100000⟩
     atom_length/2 (built-in).  Fresh variables start above every variable of a payload. -/
 def initProcs : Procs :=
   [ (⟨"p", 1⟩, ⟨true, []⟩),
-    (⟨"s", 1⟩, ⟨false, [⟨0, Term.a1 "s" (.int 1)⟩, ⟨1, Term.a1 "s" (.int 2)⟩]⟩),
+    (⟨"s", 1⟩, ⟨false, [⟨0, Term.a1 "s" (.int 1), .atom "true"⟩, ⟨1, Term.a1 "s" (.int 2), .atom "true"⟩]⟩),
     (⟨"member", 2⟩, ⟨false, []⟩),
     (⟨"atom_length", 2⟩, ⟨false, []⟩) ]
 
